@@ -72,11 +72,21 @@ theorem mismatch_rejected (d : Delivery) (s : Store)
   rw [validate_trace]
   exact no_W_of_not_hasW h.2
 
-/-- **Records arriving from the network are never readable before validation accepted them, and
-oversized or unparseable ones are refused**: `RecordStore::put` touches neither index, cache nor disk (read
-off the source by the translator; the function has no store output at all), returns `ValueTooLarge` exactly
-when `len ≥ max_value_bytes`, and emits no `UnverifiedRecord` event for an oversized record or one whose
-header does not parse. -/
+/-- **Records arriving from the network (kad path) are never readable before validation accepted them, and
+oversized or unparseable ones are refused there**: `RecordStore::put` returns `ValueTooLarge` exactly when
+`len ≥ max_value_bytes`, and emits no `UnverifiedRecord` event for an oversized record or one whose header
+does not parse.
+
+What the first conjunct is: "never readable before validation" is **not** derived from a model of the store here.
+`storePutNeverStores` is a generated constant — the translator's reading of the body of `RecordStore::put`
+(true iff it contains none of `put_verified(`, `records.insert(`, `records_cache.`, `fs::write`,
+`records_by_distance.`) — and `storePut` therefore has no store output at all.  The behavioural content of the
+clause is the harness's observation on the real `NodeRecordStore` (component `validate-keys`, `sput` lines):
+`get`, `contains` and the address list are compared before and after every call (oracle
+`C04:put-never-readable`).  The theorem pins the generated constant and the `storePut` equations, so that a
+source change the translator reads differently breaks it.  (That `put_verified`, the only function that
+stores, is reached only from the `PutLocalRecord` handler, i.e. after validation, is C01's model.)
+The size clause for the other paths is `oversized_refused_every_path`. -/
 theorem put_never_readable :
     storePutNeverStores = true ∧
     ∀ (maxBytes len : Nat) (hdr : Option Kind) (held : Held),
@@ -112,10 +122,72 @@ theorem put_event_implies_parsed (maxBytes len : Nat) (hdr : Option Kind) (held 
     | none => have := this.2.2 rfl; simp_all
     | some _ => rfl
 
-/-- **Under every schedule** of concurrent validations (`World.run` over an arbitrary action list), every key
-the node comes to hold is the record key of a started validation whose content determines exactly that key
-(for a replicated transaction vector: whose entries are filtered to that key, see `stored_key_is_derived`).
-So no interleaving can leave a record under a key its content does not derive. -/
+/-- **Oversized records are refused on every path, each with the bound the code enforces there**
+(`MAX_PACKET_SIZE` = 5 MiB; constants and comparators read off the source by the translator).
+* Client upload / update and replication: both entry points of put validation (`validate_and_store_record`,
+  `store_replicated_in_record`) compare `record.value.len()` with `MAX_PACKET_SIZE` before anything else
+  (`validateSized = none`: an error and no command at all, so nothing is stored or replicated); below the limit
+  the decision function `validate` applies unchanged.
+* kad path: `RecordStore::put` with the configuration `build_node` gives the store
+  (`max_value_bytes = MAX_PACKET_SIZE`) answers `ValueTooLarge` and emits no event; a kad message is itself
+  limited to `MAX_PACKET_SIZE` (`set_max_packet_size`).
+The node's own test is what bounds a *replicated* record: it arrives in a request-response `GetReplicatedRecord`
+response, which libp2p's cbor codec limits to `cborResponseSizeMaximum` = 10 MiB — twice `MAX_PACKET_SIZE`
+(`transport_does_not_bound_replication`) — and `put_verified` has no size test.  Before the repair recorded in
+`known_findings.jsonl` a replicated chunk / scratchpad of 5 MiB … 10 MiB was accepted and stored (replayed:
+`big r chunk 1000000`, `big r pad 4000000`). -/
+theorem oversized_refused_every_path :
+    (∀ (len : Nat) (d : Delivery) (s : Store), maxPacketSize ≤ len → validateSized len d s = none) ∧
+    (∀ (len : Nat) (d : Delivery) (s : Store), len < maxPacketSize → validateSized len d s = some (validate d s)) ∧
+    (∀ (len : Nat) (hdr : Option Kind) (held : Held), storeMaxValueBytes ≤ len →
+      storePut storeMaxValueBytes len hdr held = (.tooLarge, false)) ∧
+    storeMaxValueBytes = maxPacketSize ∧ kadMaxPacketSize = maxPacketSize := by
+  have e1 : nodeSizeRefusesAtLimit = true := by decide
+  have e2 : clientPathRefusesOversize = true := by decide
+  have e3 : replPathRefusesOversize = true := by decide
+  have e4 : storePutRefusesAtLimit = true := by decide
+  refine ⟨?_, ?_, ?_, by decide, by decide⟩
+  · intro len d s h
+    have : sizeGate d.client len = true := by
+      cases hc : d.client <;> simp [sizeGate, oversize, e1, e2, e3, h]
+    simp [validateSized, this]
+  · intro len d s h
+    have : sizeGate d.client len = false := by
+      have : ¬ maxPacketSize ≤ len := by omega
+      cases hc : d.client <;> simp [sizeGate, oversize, e1, e2, e3, this]
+    simp [validateSized, this]
+  · intro len hdr held h
+    simp [storePut, e4, h]
+
+/-- the transport limits alone would let a replicated record of up to twice `MAX_PACKET_SIZE` through (the
+request-response codec's limit on a response; requests, which carry no record, are limited to 1 MiB) -/
+theorem transport_does_not_bound_replication :
+    cborResponseSizeMaximum = 2 * maxPacketSize ∧ maxPacketSize < cborResponseSizeMaximum ∧
+    cborRequestSizeMaximum < maxPacketSize := by decide
+
+/-- **Under every schedule, about the validation that writes** (`World.run` over an arbitrary action list —
+validations interleaved at their store reads, keys dropped at any time): every put an action emits for delivery
+`d` is under the key `d` was presented under, which is the key its content determines (for a replicated
+transaction vector: only entries whose owner key is that key contribute), and carries content of the delivered
+kind.  So no interleaving can leave a record under a key its content does not derive. -/
+theorem any_schedule_put_key_derived (s0 : Store) (pre : List Act) (a : Act)
+    (d : Delivery) (k : Nat) (c : Content)
+    (hput : (d, k, c) ∈ (World.run ⟨s0, []⟩ pre).putsOf a) :
+    k = d.rk ∧ (¬ IsTxVector d → derivedKey d.content = some k) ∧
+      (∀ t ∈ txValid d, 3 * t.owner + 1 = k) ∧ c.fam = kindFam d.kind := by
+  obtain ⟨hk, hc, ⟨h1, h2⟩, _, _⟩ := put_justified s0 pre a d k c hput
+  refine ⟨by rw [hk, h1], fun hv => by rw [hk, h1]; exact h2 hv, ?_, hc⟩
+  intro t ht
+  simp only [txValid, txForKey, txFiltersInvalid, txFiltersForeign, if_true] at ht
+  rw [hk]
+  cases hcn : d.content <;> simp only [hcn] at ht
+  all_goals simp at ht
+  exact ht.2.2
+
+/-- **Under every schedule** of concurrent validations (`World.run` over an arbitrary action list, keys dropped
+at any time), every key the node comes to hold is the record key of a started validation whose content
+determines exactly that key (for a replicated transaction vector: whose entries are filtered to that key, see
+`stored_key_is_derived`). -/
 theorem any_schedule_keys_derived (s0 : Store) (acts : List Act) (k : Nat)
     (hnew : s0.get k = none) (hheld : (World.run ⟨s0, []⟩ acts).store.get k ≠ none) :
     ∃ d ∈ startedBy ⟨s0, []⟩ acts, d.rk = k ∧ (¬ IsTxVector d → derivedKey d.content = some k) := by
@@ -154,6 +226,9 @@ example : storePut 200 199 (some .chunk) .none = (.ok, true) := by decide
 example : storePut 200 200 (some .chunk) .none = (.tooLarge, false) := by decide
 example : storePut 200 10 (some .chunk) .chunk = (.ok, false) := by decide
 example : storePut 200 10 (some .chunkp) .chunk = (.ok, true) := by decide
+/-- a replicated chunk one byte below / at the limit -/
+example : validateSized (maxPacketSize - 1) ⟨false, .chunk, 0, .chunk 0, none⟩ [] = some (.ok, [.H 0, .W 0 .chunk]) := by decide
+example : validateSized maxPacketSize ⟨false, .chunk, 0, .chunk 0, none⟩ [] = none := by decide
 
 /-! ## The derivations themselves (`Model/AddrDerive`, content hash = SHA3-256 as defined in `Base/Sha3`;
 tied to the real address types by component `addrderive`) -/
@@ -207,6 +282,9 @@ end SafeNet.Props.C04
 #print axioms SafeNet.Props.C04.put_never_readable
 #print axioms SafeNet.Props.C04.put_event_implies_parsed
 #print axioms SafeNet.Props.C04.addresses_recomputed
+#print axioms SafeNet.Props.C04.oversized_refused_every_path
+#print axioms SafeNet.Props.C04.transport_does_not_bound_replication
+#print axioms SafeNet.Props.C04.any_schedule_put_key_derived
 #print axioms SafeNet.Props.C04.any_schedule_keys_derived
 #print axioms SafeNet.Props.C04.any_schedule_foreign_key_untouched
 #print axioms SafeNet.Props.C04.derived_keys_are_content_hashes
